@@ -16,6 +16,12 @@ construction goes through `__init__` or (init=False) a manual `__attrs_init__`, 
 `Exception`).  A construction records EVERY user callback -- pre-init hook, factories, converters, validators,
 post-init hook -- and the specification demands the non-validator ones identically with the switch on and off.
 
+Field values are small lists (mutable, identity matters).  An assignment binds the attribute to a fresh object,
+to the very object it currently holds (`c.x = c.x`), to an equal copy, or performs a real augmented assignment
+(`c.x += [...]`); what the attribute holds at that moment was stored without any validation (instances are first
+built without the initializer), by an earlier assignment or by the last construction of that class -- any of them
+possibly while validators were disabled.  The model ignores the value (C20_assign_value_irrelevant).
+
 Classes are created fresh for every case (nothing a reader may memoise on a class survives into another case, so
 replays are exact).  Every validator checks that it is called with the Attribute of the instance's own class and
 that it belongs to that attribute's validator chain; otherwise the event is logged as `validator-foreign`.
@@ -41,7 +47,7 @@ import common
 ID = "C20"
 RULE = ("cases = class hierarchy (1-3 attrs classes: base, subclasses adding/re-declaring validated fields, siblings) x "
         "faulty validator x start position x operation history whose readers each name the class whose instance they "
-        "work on; sweeps: every reader over the classes of a hierarchy in every order, twice, enabled / after a "
+        "work on, every assignment says which object it binds (fresh / the stored one / equal copy / +=); sweeps: every reader over the classes of a hierarchy in every order, twice, enabled / after a "
         "disabled pass; thorough: ALL histories of "
         "length <= 5 over {set_disabled(T/F), set_run_validators(T/F), enter, exit, exit-by-exception, construct, "
         "assign, validate} that never exit with nothing open (closed at the end), from both start positions, each on a "
@@ -113,7 +119,7 @@ def mk_converter(name):
 def mk_factory(name):
     def fac():
         _hit("factory", name, 0)
-        return "d." + name
+        return ["d." + name]
     return fac
 
 
@@ -318,7 +324,7 @@ def _observe(case, open_cms):
     for K, names, _ in built:
         inst = K.__new__(K)
         for n in names:
-            object.__setattr__(inst, n, "v." + n)
+            object.__setattr__(inst, n, ["v." + n])      # stored without ever passing a validator
         insts.append(inst)
     f = case.get("fault")
     FAULT[0] = (f["kind"], f["field"], f["idx"]) if f else None
@@ -357,14 +363,26 @@ def _observe(case, open_cms):
                 ret = _b3(get_run)
             elif k == "construct":
                 K, _, passed = built[a["k"]]
-                vals = {n: "v." + n for n in passed}
+                vals = {n: ["v." + n] for n in passed}
                 if cfg.get("attrsInit"):
-                    K.__new__(K).__attrs_init__(**vals)
+                    new = K.__new__(K)
+                    new.__attrs_init__(**vals)
                 else:
-                    K(**vals)
+                    new = K(**vals)
+                # later assignments / validate() work on the instance built last (possibly while disabled)
+                if cfg.get("adopt", True):
+                    insts[a["k"]] = new
             elif k == "assign":
-                names = built[a["k"]][1]
-                setattr(insts[a["k"]], names[a["i"]], "w." + names[a["i"]])
+                inst, n = insts[a["k"]], built[a["k"]][1][a["i"]]
+                how = a.get("v", "fresh")
+                if how == "fresh":
+                    setattr(inst, n, ["w." + n])
+                elif how == "same":              # re-bind the attribute to the very object it holds
+                    setattr(inst, n, getattr(inst, n))
+                elif how == "equal":             # an equal but distinct object
+                    setattr(inst, n, list(getattr(inst, n)))
+                else:                            # a real augmented assignment: in-place change, then re-binding
+                    exec("inst.%s += ['+']" % n, {"inst": inst})
             elif k == "validate":
                 validate(insts[a["k"]])
             else:
@@ -445,6 +463,7 @@ def _observe(case, open_cms):
 
 # ------------------------------------------------------------------------------------------ generators
 READERS = ("construct", "assign", "validate")
+ASSIGN_VALS = ["fresh", "same", "same", "equal", "iadd"]
 
 
 def _depths(ops):
@@ -538,6 +557,7 @@ def _rand_cfg(rng):
         "excKinds": [rng.choice(EXC_KINDS) for _ in range(3)],
         "via": rng.choice(["attr", "attrs"]),
         "realWith": rng.random() < 0.4,
+        "adopt": rng.random() < 0.7,
         "attrsInit": rng.random() < 0.2,
         "exc": rng.random() < 0.15,
     }
@@ -550,7 +570,7 @@ def _target(classes, rng, kind):
         return None
     k = rng.choice(ks)
     if kind == "assign":
-        return {"assign": {"k": k, "i": rng.randrange(len(classes[k]["fields"]))}}
+        return {"assign": {"k": k, "i": rng.randrange(len(classes[k]["fields"])), "v": rng.choice(ASSIGN_VALS)}}
     return {kind: {"k": k}}
 
 
@@ -675,7 +695,8 @@ def _sweeps(hier, fault, rng):
 
     def reader_ops(kind, k):
         if kind == "assign":
-            return [{"assign": {"k": k, "i": i}} for i in range(len(classes[k]["fields"]))]
+            return [{"assign": {"k": k, "i": i, "v": v}} for i in range(len(classes[k]["fields"]))
+                    for v in ("same", "fresh", "iadd", "equal")]
         return [{kind: {"k": k}}]
 
     for kind in READERS:
@@ -694,7 +715,7 @@ def gen_cases(tier, rng):
     max_len = 3 if tier == "quick" else 5
     # the repaired deviation and its relatives first
     reg_hier, reg_fault = POOL[1]
-    A0 = {"assign": {"k": 0, "i": 0}}
+    A0 = {"assign": {"k": 0, "i": 0, "v": "fresh"}}
     C0, V0 = {"construct": {"k": 0}}, {"validate": {"k": 0}}
     for ops in (["enter", "exit", C0], ["enter", "enter", "exit", C0, "exit", C0], ["enter", "exitExc", A0],
                 ["enter", "enter", {"setDisabled": {"a": "F"}}, "exit", V0, "exit", V0]):
@@ -793,6 +814,8 @@ def dist(case, obs):
             1 for o, s in zip(case["ops"], steps) if _op(o)[0] == "construct" and s["run"] == "f"
             and case["classes"][_op(o)[1]["k"]]["post"]
             and any(f["validators"] for f in case["classes"][_op(o)[1]["k"]]["fields"]))),
+        "assign_values": ",".join(sorted({_op(o)[1].get("v", "fresh") for o in case["ops"] if _op(o)[0] == "assign"})),
+        "instance_adopted_from_construct": bool(cfg.get("adopt", True)),
         "init_via": "__attrs_init__" if cfg.get("attrsInit") else "__init__",
         "exception_class": bool(cfg.get("exc")),
         "build_disabled": cfg.get("buildDisabled"),
@@ -837,7 +860,7 @@ def shrink(case):
         yield dict(case, start=True)
     cfg = case.get("cfg", {})
     base = {"slots": None, "bare": True, "buildDisabled": False, "earlyCm": False,
-            "excKinds": ["valueError"], "via": "attr", "realWith": False, "attrsInit": False, "exc": False}
+            "excKinds": ["valueError"], "via": "attr", "realWith": False, "attrsInit": False, "exc": False, "adopt": False}
     for k, v in base.items():
         if cfg.get(k) != v:
             yield dict(case, cfg=dict(cfg, **{k: v}))
@@ -867,6 +890,9 @@ def shrink(case):
                 yield with_own(nd["own"][:j] + [dict(f, validators=f["validators"] - 1)] + nd["own"][j + 1:])
     for i, o in enumerate(ops):
         k, a = _op(o)
+        if k == "assign" and a.get("v", "fresh") != "fresh":
+            for v in (("fresh", "same") if a["v"] != "same" else ("fresh",)):
+                yield dict(case, ops=ops[:i] + [{"assign": dict(a, v=v)}] + ops[i + 1:])
         if k in ("setDisabled", "setRun") and a["a"] in NONBOOL and a["a"] != "int1":
             yield dict(case, ops=ops[:i] + [{k: {"a": "int1"}}] + ops[i + 1:])
 
@@ -891,7 +917,7 @@ LEVEL_TEXT = (
     "pairs), C20_restore/C20_restore_observed (every exit, normal or exceptional, of every balanced block in any "
     "history restores switch and saved states of the matching enter; by induction with a stack-frame invariant), "
     "C20_disabled_inside, C20_block_silences_validators, C20_nonbool_rejected_state_unchanged, "
-    "C20_readers_memoryless (what a reader runs depends only on the class of the instance and the switch, not on which "
+    "C20_assign_value_irrelevant (no short cut for re-binding the object already stored), C20_readers_memoryless (what a reader runs depends only on the class of the instance and the switch, not on which "
     "instances of which classes of the hierarchy were read before), "
     "C20_hooks_unaffected / C20_construct_callbacks (a construction calls pre-init, per field factory and converter, "
     "validators iff enabled, post-init; only the validators depend on the switch), "
